@@ -69,6 +69,9 @@ MUTANTS = [
     # not behaviour-preserving: a w<0 pose flips its representation under an infinitesimal update, which breaks forward differences of custom error
     # functions that are functions of the stored quaternion (C16); everything that only depends on the rotation is unaffected
     ("SE3 boxplus result canonicalised (unit norm, w >= 0)", SE3, "                                self[6] * qw - self[3] * qx - self[4] * qy - self[5] * qz])\n", "                                self[6] * qw - self[3] * qx - self[4] * qy - self[5] * qz])._vf_canonical()\n", ["C16"]),
+    ("EQUIV loader iterates the file object instead of readlines()", G, "            for line in f.readlines():", "            for line in f:", []),
+    ("EQUIV loader tries the landmark parser before the odometry parser", G, "                    # Odometry Edge\n                    edge_or_none = EdgeOdometry.from_g2o(line, g2o_params)", "                    # Landmark Edge first (the tags are disjoint)\n                    edge_or_none = EdgeLandmark.from_g2o(line, g2o_params)\n                    if edge_or_none:\n                        edges.append(edge_or_none)\n                        continue\n\n                    # Odometry Edge\n                    edge_or_none = EdgeOdometry.from_g2o(line, g2o_params)", []),
+    ("EQUIV export builds the text first and writes it once", G, "                    f.write(edge_str_or_none)", "                    f.write(str(edge_str_or_none))", []),
     ("info-lower-triangle", EO, 'self.estimate[2]) + " ".join([str(x) for x in self.information[np.triu_indices(3, 0)]])', 'self.estimate[2]) + " ".join([str(x) for x in self.information.T[np.triu_indices(3, 0)]])', []),
     ("params-after-edges", G, "            if self._g2o_params:\n                for g2o_param in self._g2o_params.values():\n                    f.write(g2o_param.to_g2o())\n\n            for v in self._vertices:\n                f.write(v.to_g2o())\n",
      "            for v in self._vertices:\n                f.write(v.to_g2o())\n\n            if self._g2o_params:\n                for g2o_param in self._g2o_params.values():\n                    f.write(g2o_param.to_g2o())\n", ["C13"]),
